@@ -26,7 +26,12 @@ def allowed_here(prog, caller, regs):
     it (Program.folded)"""
     if matches_any(caller, regs):
         return True
-    return any(host == caller and matches_any(f, regs) for f, host in prog.folded().items())
+    if any(host == caller and matches_any(f, regs) for f, host in prog.folded().items()):
+        return True
+    # the closure of a new private helper that was inlined into its callers (`fn publish() { .. self.enqueue(..) }`, the closure stays
+    # `enqueue::{closure#0}`): its code runs where the helper's code runs - allowed when every host is
+    hosts = prog.inlined_hosts(caller)
+    return bool(hosts) and all(allowed_here(prog, h, regs) for h in hosts)
 
 
 def wmc(rule, prog, callee_regex, allowed, floor=1, what=None, skip_callers=None):
